@@ -2,7 +2,7 @@
    for the seven integer scales.  The f64 constants MJD_J1900, MJD_OFFSET and their sum go through
    Unit * f64 exactly as in the code. *)
 From Coq Require Import ZArith Bool List.
-From HF Require Import MachInt GenConsts GenUnits Duration Epoch F64 DurationF64.
+From HF Require Import MachInt GenConsts GenUnits Duration Epoch Gregorian F64 DurationF64.
 Open Scope Z_scope.
 
 Definition mjd_j1900 : f64 := f_of_bits MJD_J1900_bits.
@@ -36,9 +36,11 @@ Definition to_unix (e : epoch) (u : unit_t) := omap (fun d => to_unit d u) (to_u
 Definition to_tt_centuries_j2k (e : epoch) := omap (fun d => to_unit d Century) (to_tt_since_j2k e).
 
 (* constructors *)
-Definition from_mjd_in_time_scale (days : f64) (t : timescale) : epoch := mkE (unit_mul_f64 Day (fsub days mjd_j1900)) t.
+(* the day count is read on the calendar of scale t: its calendar offset (TimeScale::gregorian_epoch_offset) is subtracted *)
+Definition from_mjd_in_time_scale (days : f64) (t : timescale) : epoch :=
+  mkE (dur_sub (unit_mul_f64 Day (fsub days mjd_j1900)) (gregorian_epoch_offset t)) t.
 Definition from_jde_in_time_scale (days : f64) (t : timescale) : epoch :=
-  mkE (unit_mul_f64 Day (fsub (fsub days mjd_j1900) mjd_offset)) t.
+  mkE (dur_sub (unit_mul_f64 Day (fsub (fsub days mjd_j1900) mjd_offset)) (gregorian_epoch_offset t)) t.
 Definition from_unix_duration (d : duration) : option epoch := omap (fun r => mkE (dur_add r d) UTC) unix_ref_utc.
 Definition from_unix_seconds (s : f64) : option epoch := omap (fun r => mkE (dur_add r (unit_mul_f64 Second s)) UTC) unix_ref_utc.
 Definition from_unix_milliseconds (s : f64) : option epoch := omap (fun r => mkE (dur_add r (unit_mul_f64 Millisecond s)) UTC) unix_ref_utc.
